@@ -155,88 +155,160 @@ func checkC14(R *Run) {
 			}
 		}
 		var problems []string
+		// smallFact: a branch fact that bounds v (or len of the slice v measures) by 65535 on an edge reaching pred
+		smallFact := func(same func(x ssa.Value) bool, pred *ssa.BasicBlock) bool {
+			ok := false
+			factEdges(fn, func(e Edge, f Fact) {
+				if f.Kind != "truth" {
+					return
+				}
+				b, isB := f.V.(*ssa.BinOp)
+				if !isB {
+					return
+				}
+				k, isK := constInt(b.Y)
+				if !isK || !same(b.X) {
+					return
+				}
+				small := false
+				switch b.Op {
+				case token.GTR:
+					small = !f.Holds && k <= 65535
+				case token.GEQ:
+					small = !f.Holds && k <= 65536
+				case token.LEQ:
+					small = f.Holds && k <= 65535
+				case token.LSS:
+					small = f.Holds && k <= 65536
+				}
+				if small && (e.From == pred || e.To == pred || edgeDominates(fn, e, pred)) {
+					ok = true
+				}
+			})
+			return ok
+		}
+		isLen := func(v ssa.Value) (ssa.Value, bool) {
+			if c, ok := v.(*ssa.Call); ok && calleeName(&c.Call) == "builtin.len" {
+				return c.Call.Args[0], true
+			}
+			return nil, false
+		}
+		// sliceBounded: the slice value has at most 65535 elements when control arrives through pred
+		var sliceBounded func(v ssa.Value, pred *ssa.BasicBlock, d int) bool
+		sliceBounded = func(v ssa.Value, pred *ssa.BasicBlock, d int) bool {
+			if d > 4 {
+				return false
+			}
+			if sl, ok := v.(*ssa.Slice); ok && sl.High != nil {
+				if k, ok := constInt(sl.High); ok && k <= 65535 {
+					return true
+				}
+			}
+			if m, ok := v.(*ssa.Phi); ok {
+				for i, e := range m.Edges {
+					if !sliceBounded(e, m.Block().Preds[i], d+1) {
+						return false
+					}
+				}
+				return true
+			}
+			return smallFact(func(x ssa.Value) bool { a, ok := isLen(x); return ok && a == v }, pred)
+		}
+		// intBounded: the integer is at most 65535 when control arrives through pred
+		var intBounded func(v ssa.Value, pred *ssa.BasicBlock, d int) bool
+		intBounded = func(v ssa.Value, pred *ssa.BasicBlock, d int) bool {
+			if d > 4 {
+				return false
+			}
+			if k, ok := constInt(v); ok {
+				return k >= 0 && k <= 65535
+			}
+			if m, ok := v.(*ssa.Phi); ok {
+				for i, e := range m.Edges {
+					if !intBounded(e, m.Block().Preds[i], d+1) {
+						return false
+					}
+				}
+				return true
+			}
+			if c, ok := v.(*ssa.Call); ok && calleeName(&c.Call) == "builtin.min" {
+				for _, a := range c.Call.Args {
+					if intBounded(a, pred, d+1) {
+						return true
+					}
+				}
+			}
+			if a, ok := isLen(v); ok && sliceBounded(a, pred, d+1) {
+				return true
+			}
+			return smallFact(func(x ssa.Value) bool {
+				if x == v {
+					return true
+				}
+				a1, ok1 := isLen(x)
+				a2, ok2 := isLen(v)
+				return ok1 && ok2 && a1 == a2
+			}, pred)
+		}
+		// sameLength: two integer values that are the same quantity (one SSA value, or len of one slice value)
+		sameLength := func(a, b ssa.Value) bool {
+			a, b = stripConv(a), stripConv(b)
+			if a == b {
+				return true
+			}
+			x, ok1 := isLen(a)
+			y, ok2 := isLen(b)
+			return ok1 && ok2 && x == y
+		}
 		if put == nil {
 			problems = append(problems, "no PutUint16 of the size prefix found")
 		} else {
 			a := put.Call.Args
-			lenCall, _ := stripConv(a[len(a)-1]).(*ssa.Call)
-			if lenCall == nil || calleeName(&lenCall.Call) != "builtin.len" {
-				problems = append(problems, "the prefix is not len(...) of a value")
-			} else {
-				measured := lenCall.Call.Args[0]
-				// the stored bytes come from the same value: copy(f.Data, measured) and make(len(measured))
+			prefix := stripConv(a[len(a)-1])
+			// the bytes stored: Data = make([]byte, L) filled by copy(.., src) — or Data = v directly
+			var stored ssa.Value
+			eachInstr(fn, func(ins ssa.Instruction) {
+				if st, ok := ins.(*ssa.Store); ok {
+					if fa, ok := st.Addr.(*ssa.FieldAddr); ok {
+						if f, _ := fieldOf(fa); f == "hotline.Field.Data" {
+							stored = st.Val
+						}
+					}
+				}
+			})
+			switch d := stored.(type) {
+			case nil:
+				problems = append(problems, "no store to Field.Data found")
+			case *ssa.MakeSlice:
+				if !sameLength(prefix, d.Len) {
+					problems = append(problems, "the prefix is not the length the data buffer is made with")
+				}
+				// filled from the data parameter with a copy that covers the whole buffer: the source is the
+				// measured value itself, or data[:L]
 				copied := false
 				for _, ci := range callsIn(fn) {
 					c := ci.Common()
-					if calleeName(c) == "builtin.copy" && c.Args[1] == measured {
+					if calleeName(c) != "builtin.copy" {
+						continue
+					}
+					src := c.Args[1]
+					if m, ok := isLen(stripConv(d.Len)); ok && src == m {
+						copied = true
+					}
+					if sl, ok := src.(*ssa.Slice); ok && sl.Low == nil && sl.High != nil && sameLength(sl.High, d.Len) && (sl.X == ssa.Value(data)) {
 						copied = true
 					}
 				}
 				if !copied {
-					// or stored directly
-					eachInstr(fn, func(ins ssa.Instruction) {
-						if st, ok := ins.(*ssa.Store); ok && st.Val == measured {
-							copied = true
-						}
-					})
-				}
-				if !copied {
 					problems = append(problems, "the bytes stored are not the value whose length is put in the prefix")
 				}
-				// bounded on every path
-				bounded := func(v ssa.Value, pred *ssa.BasicBlock) bool {
-					if sl, ok := v.(*ssa.Slice); ok && sl.High != nil {
-						if k, ok := constInt(sl.High); ok && k <= 65535 {
-							return true
-						}
-					}
-					if v == ssa.Value(data) {
-						// must come from an edge where len(data) > 65535 is false
-						ok := false
-						factEdges(fn, func(e Edge, f Fact) {
-							if f.Kind != "truth" {
-								return
-							}
-							b, isB := f.V.(*ssa.BinOp)
-							if !isB {
-								return
-							}
-							lc, isL := b.X.(*ssa.Call)
-							k, isK := constInt(b.Y)
-							if !isL || !isK || calleeName(&lc.Call) != "builtin.len" || lc.Call.Args[0] != ssa.Value(data) {
-								return
-							}
-							small := false
-							switch b.Op {
-							case token.GTR:
-								small = !f.Holds && k <= 65535
-							case token.GEQ:
-								small = !f.Holds && k <= 65536
-							case token.LEQ:
-								small = f.Holds && k <= 65535
-							case token.LSS:
-								small = f.Holds && k <= 65536
-							}
-							if small && (e.From == pred || e.To == pred || edgeDominates(fn, e, pred)) {
-								ok = true
-							}
-						})
-						return ok
-					}
-					return false
+			default:
+				if m, ok := isLen(prefix); !ok || m != stored {
+					problems = append(problems, "the bytes stored are not the value whose length is put in the prefix")
 				}
-				switch m := measured.(type) {
-				case *ssa.Phi:
-					for i, e := range m.Edges {
-						if !bounded(e, m.Block().Preds[i]) {
-							problems = append(problems, "on one path the data is not bounded by 65535 before its length is truncated to 16 bits")
-						}
-					}
-				default:
-					if !bounded(m, put.Block()) {
-						problems = append(problems, "uint16(len(data)) is computed from data whose length is not bounded by 65535 (a longer field gets a wrapped prefix while all its bytes are emitted)")
-					}
-				}
+			}
+			if !intBounded(prefix, put.Block(), 0) {
+				problems = append(problems, "the length put in the 16-bit prefix is not bounded by 65535 on every path (a longer field gets a wrapped prefix while all its bytes are emitted)")
 			}
 		}
 		R.check(len(problems) == 0, "field-len-guard", "hotline.NewField", P.pos(fn.Pos()), "prefix = len(stored bytes) <= 65535 on every path", strings.Join(problems, "; "))
@@ -276,10 +348,56 @@ func checkC14(R *Run) {
 		if fn == nil {
 			continue
 		}
-		idOK, cidOK := false, false
+		idOK, cidOK, foreign := false, false, ""
+		// delegation: the other constructor called with this one's own (cc, t), its result being the only
+		// Transaction value this function stores or returns
+		isDelegate := func(v ssa.Value) bool {
+			c, ok := v.(*ssa.Call)
+			if !ok {
+				return false
+			}
+			cn := calleeName(&c.Call)
+			return (cn == "(*hotline.ClientConn).NewReply" || cn == "(*hotline.ClientConn).NewErrReply") && cn != n &&
+				len(c.Call.Args) >= 2 && c.Call.Args[0] == ssa.Value(fn.Params[0]) && c.Call.Args[1] == ssa.Value(fn.Params[1])
+		}
+		var fromDelegate func(v ssa.Value, d int) bool
+		fromDelegate = func(v ssa.Value, d int) bool {
+			if d > 4 {
+				return false
+			}
+			if isDelegate(v) {
+				return true
+			}
+			if u, ok := v.(*ssa.UnOp); ok && u.Op == token.MUL {
+				if a, ok := u.X.(*ssa.Alloc); ok {
+					n := 0
+					for _, r := range *a.Referrers() {
+						if st, ok := r.(*ssa.Store); ok && st.Addr == ssa.Value(a) {
+							if !fromDelegate(st.Val, d+1) {
+								return false
+							}
+							n++
+						}
+					}
+					return n > 0
+				}
+			}
+			return false
+		}
+		nWhole, nDeleg := 0, 0
 		eachInstr(fn, func(ins ssa.Instruction) {
 			st, ok := ins.(*ssa.Store)
 			if !ok {
+				return
+			}
+			if typeName(st.Val.Type()) == "hotline.Transaction" {
+				if _, isCell := st.Addr.(*ssa.Alloc); isCell && isDelegate(st.Val) {
+					return // the spill of the delegate's result into a local; its loads are judged where they are stored
+				}
+				nWhole++
+				if fromDelegate(st.Val, 0) {
+					nDeleg++
+				}
 				return
 			}
 			fa, ok := st.Addr.(*ssa.FieldAddr)
@@ -288,13 +406,37 @@ func checkC14(R *Run) {
 			}
 			f, _ := fieldOf(fa)
 			src := P.sym(st.Val)
-			if f == "hotline.Transaction.ID" && src == "field:hotline.Transaction.ID@param:"+fn.Params[1].Name() {
-				idOK = true
+			if f == "hotline.Transaction.ID" {
+				if src == "field:hotline.Transaction.ID@param:"+fn.Params[1].Name() {
+					idOK = true
+				} else {
+					foreign = "ID = " + src
+				}
 			}
-			if f == "hotline.Transaction.ClientID" && src == "field:hotline.ClientConn.ID@param:"+fn.Params[0].Name() {
-				cidOK = true
+			if f == "hotline.Transaction.ClientID" {
+				if src == "field:hotline.ClientConn.ID@param:"+fn.Params[0].Name() {
+					cidOK = true
+				} else {
+					foreign = "ClientID = " + src
+				}
 			}
 		})
+		for _, ret := range returnsOf(fn) {
+			for _, r := range ret.Results {
+				if typeName(r.Type()) == "hotline.Transaction" {
+					nWhole++
+					if fromDelegate(r, 0) {
+						nDeleg++
+					}
+				}
+			}
+		}
+		if nWhole > 0 && nWhole == nDeleg {
+			idOK, cidOK = true, true
+		}
+		if foreign != "" {
+			idOK = false
+		}
 		R.check(idOK && cidOK, "reply-ctor", n, P.pos(fn.Pos()), "ID = request.ID, ClientID = receiver's ID", fmt.Sprintf("the reply constructor does not copy the request's ID (%v) and the receiver's client ID (%v)", idOK, cidOK))
 	}
 	regs := R.registeredHandlers()
@@ -625,7 +767,7 @@ func checkC19(R *Run) {
 				continue
 			}
 			nW++
-			converted := derivesAll(c.Args[0], func(x ssa.Value) bool {
+			converted := P.derivesAll(c.Args[0], func(x ssa.Value) bool {
 				rc, ok := x.(*ssa.Call)
 				if !ok || (calleeName(&rc.Call) != "strings.ReplaceAll" && calleeName(&rc.Call) != "bytes.ReplaceAll") {
 					return false
@@ -635,7 +777,7 @@ func checkC19(R *Run) {
 				if from != "\n" || to != "\r" {
 					return false
 				}
-				return P.reaches(rc.Call.Args[0], func(y ssa.Value) bool {
+				return P.reachesDeep(rc.Call.Args[0], func(y ssa.Value) bool {
 					if fa, ok := y.(*ssa.FieldAddr); ok {
 						f, _ := fieldOf(fa)
 						return f == "hotline.Field.Data"
@@ -729,6 +871,7 @@ func checkC18(R *Run) {
 
 	// news-lockset
 	nAcc := 0
+	perField := map[string]int{}
 	for _, a := range P.mapAccesses() {
 		owner, ok := mapOwnerTable[a.field]
 		if !ok || owner != "mobius.ThreadedNewsYAML.mu" {
@@ -738,9 +881,18 @@ func checkC18(R *Run) {
 			continue
 		}
 		nAcc++
+		perField[a.field]++
 		R.check(L.heldAnyBase(a.ins, owner), "news-lockset", fmt.Sprintf("%s: %s of %s #%d", fname(a.fn), a.kind, a.field, nAcc), P.ipos(a.ins), "store mutex held", "the news maps are accessed without the store mutex")
 	}
-	R.floor("news-lockset", 9)
+	// vacuity guard: the table's map fields still exist and each is accessed somewhere (the number of access sites
+	// itself is free to change: folding duplicated traversals into one helper removes sites)
+	// (SubCats is only ever reached through a lookup in Categories and is attributed to it)
+	for _, f := range []string{"hotline.ThreadedNews.Categories", "hotline.NewsCategoryListData15.Articles"} {
+		if perField[f] == 0 {
+			R.und("news-lockset", "table: "+f, "-", "no access to this map field was found: the field was renamed or moved and the owner table is stale")
+		}
+	}
+	R.floor("news-lockset", 3)
 
 	// list-order
 	if fn := R.mustFn("(*hotline.NewsCategoryListData15).GetNewsArtListData"); fn != nil {
